@@ -334,7 +334,11 @@ def check_validate(ctx):
         # version >= 3 without checksum magic is rejected
         def v3(e):
             return e.k == "bin" and e.extra == "Lt" and e.a[0].has_field("Metadata", "version") and e.a[1].k == "const" and (e.a[1].extra or {}).get("val") == 3
-        ctx.check(len(A.pred_switches(b, v3)) == 1, inst, "PIN", b.path, "version >= 3 requires the checksum trailer", None)
+        # ... as a branch (`if version >= 3 && !has_checksum { return false }`) or as the verdict itself (`return self.version < 3`
+        # on the no-checksum path)
+        tr0 = A.tracer(b, False)
+        as_value = [d for d in b.defs.get(0, []) if v3(tr0.node_value(d))]
+        ctx.check(len(A.pred_switches(b, v3)) + len(as_value) == 1, inst, "PIN", b.path, "version >= 3 requires the checksum trailer", None)
         # the final verdict compares complement and checksum
         fin = [n for n in b.nodes if n.kind == "assign" and not n.ev["dst"]["p"] and n.ev["dst"]["l"] == 0 and n.id not in trues]
         sig = A.pred_switches(b, lambda e: e.has_const(name="FEOX_SIGNATURE"))
